@@ -21,15 +21,27 @@ def parts_for(pid, tier, only):
         P.append(e1_part(pid, tier, f.build(tier), f.MODULES, f.ASSUMPTIONS, f.BOUNDS, f.FUNCTIONS, only))
     elif pid == "C07":
         from e1 import fam_misc as f
+        from e2.driver import e2_run
+        from e2.lemmas import c18
+
+        class c07mod:
+            run = staticmethod(c18.run_c07)
+        P.append(e2_run(pid, tier, [c07mod], only=only, flavours=("on",),
+                        assumptions=["word level: pack words push exactly from_int / from_fN of the popped value with the word's width and byte order; emit with interception on sets output' = output.append(emitted) and output-length' = output-length + len",
+                                     ">bitstr's flattening loop over vectors is not covered at word level (its element operation, append, is covered at bit level)"],
+                        bounds="one step per word; Bitstr operations uninterpreted at this level"))
         P.append(e1_part(pid, tier, f.c07_records(tier), ["ops_c07"],
                          ["record = optional raw prefix of 0..7 bits + 3 fields; widths from {1,3,4,7,8,9,12,16,24,32,63,64,65,127,128}; byte order, signedness and the emit split literal per instance; field values symbolic i128 / symbolic float bits",
                           "concatenation is the exact call sequence of bitstr_concat / emit: start from Bitstr::new() and append each element"],
                          "<=3 fields (+prefix), unwind 140", ["xeh::bitstr::Bitstr::{new, from_int, from_f32, from_f64, append, read, to_int, to_uint, to_f32, to_f64}"], only, harness_timeout=900))
     elif pid == "C18":
-        from e1 import fam_misc as f
-        P.append(e1_part(pid, tier, f.c18_codecs(tier), ["ops_c18"],
-                         ["the exact calls base_ext.rs makes: base32::encode/decode (RFC4648 padded, Crockford), base64 STANDARD, z85; input bytes symbolic, length literal"],
-                         "lengths 0..3 (quick) / 0..8 (thorough) bytes", ["base32::encode", "base32::decode", "base64::Engine::encode/decode (STANDARD)", "z85::encode", "z85::decode"], only, harness_timeout=900))
+        from e2.driver import e2_run
+        from e2.lemmas import c18
+        P.append(e2_run(pid, tier, [c18], only=only, flavours=("on",) if tier == "quick" else ("on", "off"),
+                        assumptions=["wrapper level only: the codec crates (base32, base64, z85) are uninterpreted functions text = enc(bytes), dec(text) = Some(bytes)|None; their own round trip is NOT decided (Kani: 900 s timeout on a 1-byte instance; external MIR not in the dump)",
+                                     "encode words: a bit-string argument is accepted exactly when its length is a multiple of 8 (any alignment), strings are accepted, other non-vector types refused like >bitstr; vector arguments (flattening loop) excluded",
+                                     "decode words on a string: never an error, exactly one result cell, the decoded bytes when the codec accepts (also empty), nil when it rejects"],
+                        bounds="no bound on lengths (codec results are symbolic vectors); vector arguments excluded"))
     elif pid == "C01":
         from e1 import fam_misc as f
         from e2.driver import e2_run
@@ -46,6 +58,12 @@ def parts_for(pid, tier, only):
         P.append(e1_part(pid, tier, f.c12_index(), ["bitmodel", "ops_c04", "ops_c05", "ops_misc"],
                          ["index arithmetic of nth / slice: every isize index, lengths <= 2^40, against the sequence model (negative = from the end, clamping, None when out of range), never a panic"],
                          "len <= 2^40", ["state::relative_index", "state::slicing_index"], only))
+        from e2.driver import e2_run
+        from e2.lemmas import c12
+        P.append(e2_run(pid, tier, [c12], only=only, flavours=("on",),
+                        assumptions=["order laws of map keys: real Cell::cmp and Cell::eq on two arbitrary untagged cells (non-NaN reals): cmp == Equal iff ==, antisymmetry; strings ordered by an uninterpreted total order, collections compared by uninterpreted equality",
+                                     "rpds' red-black tree and std sort are trusted given a lawful order; collection words (nth get push ...) appear in C13/C08/C02 lemmas"],
+                        bounds="two cells, any variants"))
     elif pid == "C08":
         from e1 import fam_misc as f
         from e2.driver import e2_run
@@ -85,6 +103,30 @@ def parts_for(pid, tier, only):
                                      "native words run as NativeCall instructions; words outside the listed set, Resolve back-patching, dictionary changes and I/O are outside the claim",
                                      "composition over histories of any length (induction) and replay determinism (steps are functions of the state) are paper arguments"],
                         bounds="no bound on stack depths / log length (symbolic prefixes); rnext's pop loop unrolled up to 8 entries per instruction"))
+    elif pid == "C10":
+        from e2.driver import e2_run
+        from e2.lemmas import c10
+        P.append(e2_run(pid, tier, [c10], only=only, flavours=("on",) if tier == "quick" else ("on", "off"),
+                        assumptions=["error-path frame lemmas on the real build_from_source: the token-level builder build0 is replaced by failing builds (one failing at once; one leaving an open `if`, an unclosed meta context, an included source, emitted code); on Err nesting, context, pending inputs, pending flows, auxiliary stacks must be as at entry, earlier data stays, leftover code is removed or unreachable",
+                                     "REPL path: after a failing step, opening and closing a Compile context must not leave ip on the failed instruction",
+                                     "that these fields are all a later source can observe, and the composition over histories, are paper arguments"],
+                        bounds="none (frame lemmas over symbolic states)"))
+    elif pid == "C11":
+        from e2.driver import e2_run
+        from e2.lemmas import c11
+        P.append(e2_run(pid, tier, [c11], only=only, flavours=("on",) if tier == "quick" else ("on", "off"),
+                        assumptions=["sealing: every stack accessor on a state with an empty visible part returns nothing and leaves every stack unchanged, for any hidden content; variables are refused in meta mode",
+                                     "closing a meta block (real context_close, nothing left to run): code/debug map truncated, non-constant new dictionary entries purged (<= 3 new entries), results (<= 2) re-emitted as literals last-first exactly when the parent is not a meta context or is building a function, parent context restored",
+                                     "closing a Compile context calls run() never",
+                                     "equivalence of a program with a meta block to the program with the literal (whole programs), user-defined immediate words: paper / excluded"],
+                        bounds="<= 3 entries added by the block, <= 2 results; hidden parts of all stacks symbolic"))
+    elif pid == "C17":
+        from e2.driver import e2_run
+        from e2.lemmas import c17
+        P.append(e2_run(pid, tier, [c17], only=only, flavours=("on",) if tier == "quick" else ("on", "off"),
+                        assumptions=["a failing VM step leaves ip on the failing instruction and code/debug map untouched (every opcode arm); code_emit keeps the debug map parallel to the code and records the current token; build0's handler keeps an already reported run-time location",
+                                     "NOT decided here: the line/column scan token_location and which token is current at each emit across included files (string algorithms / whole-program)"],
+                        bounds="none (one-step lemmas)"))
     elif pid == "C15":
         from e2.driver import e2_run
         from e2.lemmas import c15
